@@ -6,7 +6,11 @@ base = sys.argv[1] if len(sys.argv) > 1 else os.path.join(VERIF, 'seeded')
 props = sorted(f[:-3] for f in os.listdir(os.path.join(VERIF, 'props')) if f.startswith('C') and f.endswith('.py'))
 out = {}
 assert subprocess.run(['git', '-C', '/repo', 'diff', '--quiet']).returncode == 0, 'repo dirty'
+import re
+pat = re.compile(sys.argv[2]) if len(sys.argv) > 2 else None
 for sid in sorted(os.listdir(base)):
+    if pat is not None and not pat.search(sid):
+        continue
     d = os.path.join(base, sid)
     patch = os.path.join(d, 'patch.diff')
     if not os.path.exists(patch):
@@ -32,4 +36,5 @@ for sid in sorted(os.listdir(base)):
         shutil.rmtree(ev, ignore_errors=True)
     out[sid] = fired
     print(sid, json.dumps(fired))
-json.dump(out, open(os.path.join(base, 'detection_matrix.json'), 'w'), indent=1)
+if pat is None:
+    json.dump(out, open(os.path.join(base, 'detection_matrix.json'), 'w'), indent=1)
